@@ -37,7 +37,7 @@ use crate::ocfl::{
 };
 
 static OBJECT_ID_MATCHER: Lazy<RegexMatcher> =
-    Lazy::new(|| RegexMatcher::new(r#""id"\s*:\s*"([^"]+)""#).unwrap());
+    Lazy::new(|| RegexMatcher::new(r#""id"\s*:\s*("(?:[^"\\]|\\.)+")"#).unwrap());
 
 /// Local filesystem OCFL repository
 pub struct FsOcflStore {
@@ -1062,7 +1062,12 @@ impl InventoryIter {
             UTF8(|_, line| {
                 let mut captures = OBJECT_ID_MATCHER.new_captures()?;
                 OBJECT_ID_MATCHER.captures(line.as_bytes(), &mut captures)?;
-                matches.push(line[captures.get(1).unwrap()].to_string());
+                // The match is the JSON string including its quotes; the ID is what it decodes to
+                let raw = &line[captures.get(1).unwrap()];
+                matches.push(
+                    serde_json::from_str::<String>(raw)
+                        .unwrap_or_else(|_| raw[1..raw.len() - 1].to_string()),
+                );
                 Ok(true)
             }),
         );
